@@ -354,6 +354,12 @@ where
         Ok((sample, run_stats))
     }
 
+    /// Verification hook: read access to the sampler's chains (e.g. to clone them).
+    #[cfg(feature = "verif-hooks")]
+    pub fn verif_chains(&self) -> &Vec<NUTSChain<T, B, GTarget>> {
+        &self.chains
+    }
+
     /// Sets a new random seed for all chains to ensure reproducibility.
     ///
     /// # Parameters
